@@ -194,6 +194,11 @@ func H_C20_hashenv() {
 func H_C20_verify() {
 	fail := vBool("vfail")
 	sv := &spyVerifier{alg: AlgorithmES256, fail: fail}
+	wantErr := errSpyVerify
+	if vChoose("failkind", 2) == 1 { // a rejecting verifier may report the library's own ErrVerification (the built-in ones do)
+		sv.failErr = ErrVerification
+		wantErr = ErrVerification
+	}
 	ext := mkExternal("ext")
 	sig := vBlobN("sig", 1, 100)
 	prot := ProtectedHeader{HeaderLabelAlgorithm: AlgorithmES256}
@@ -205,10 +210,19 @@ func H_C20_verify() {
 	case 1:
 		m := &UntaggedSign1Message{Headers: Headers{Protected: prot, Unprotected: UnprotectedHeader{}}, Payload: vBlob("payload"), Signature: sig}
 		err = m.Verify(ext, sv)
-	case 2:
+	case 2: // one or two signers; the verifier under test sits at either position, the other one accepts
 		m := &SignMessage{Headers: Headers{Protected: ProtectedHeader{}, Unprotected: UnprotectedHeader{}}, Payload: vBlob("payload"),
 			Signatures: []*Signature{{Headers: Headers{Protected: prot, Unprotected: UnprotectedHeader{}}, Signature: sig}}}
-		err = m.Verify(ext, sv)
+		switch vChoose("signers", 3) {
+		case 0:
+			err = m.Verify(ext, sv)
+		case 1:
+			m.Signatures = append(m.Signatures, &Signature{Headers: Headers{Protected: ProtectedHeader{HeaderLabelAlgorithm: AlgorithmES256}, Unprotected: UnprotectedHeader{}}, Signature: vBlobN("sig2", 1, 100)})
+			err = m.Verify(ext, sv, &spyVerifier{alg: AlgorithmES256})
+		case 2:
+			m.Signatures = append(m.Signatures, &Signature{Headers: Headers{Protected: ProtectedHeader{HeaderLabelAlgorithm: AlgorithmES256}, Unprotected: UnprotectedHeader{}}, Signature: vBlobN("sig2", 1, 100)})
+			err = m.Verify(ext, &spyVerifier{alg: AlgorithmES256}, sv)
+		}
 	case 3:
 		cs := &Countersignature{Headers: Headers{Protected: prot, Unprotected: UnprotectedHeader{}}, Signature: sig}
 		err = cs.Verify(sv, mkSignedParent("parent"), ext)
@@ -221,7 +235,7 @@ func H_C20_verify() {
 	if fail {
 		vAssert("verify: a verifier error never becomes nil", err != nil)
 		if sv.calls > 0 {
-			vAssert("verify: the verifier's error is returned unchanged", err == errSpyVerify)
+			vAssert("verify: the verifier's error is returned unchanged", err == wantErr)
 		}
 	} else {
 		vAssert("verify: verifier success is success", err == nil)
